@@ -73,6 +73,8 @@ pub struct World {
     /// capture the SDK call site (backtrace) when the fault fires
     pub capture_site: bool,
     pub site: Option<String>,
+    /// another party cancels this context at the instant stream op number .0 is entered
+    pub cancel_at_op: Option<(u64, Arc<c2pa::Context>)>,
 }
 
 pub type WorldRef = Arc<Mutex<World>>;
@@ -137,6 +139,11 @@ impl SimStream {
                 w.log.push((kind, self.id, ph));
             }
             yield_now = w.yield_on_op;
+            if let Some((at, ctx)) = &w.cancel_at_op {
+                if *at == k {
+                    ctx.cancel();
+                }
+            }
             let already = w.fired.is_some();
             if already && w.plan.sticky {
                 w.sticky_hits += 1;
